@@ -58,7 +58,10 @@ def instantiate(tree, samples, enums_mod, nested=None, version=None, symvals=Non
         elif kind == 'opaque':
             if nested is None:
                 raise ValueError("nested structure %s needs a sample encoding" % it["cls"])
-            out += nested(it["cls"], tag, version)
+            nv = version
+            if it.get("version") and version is not None:
+                nv = getattr(type(version), it["version"], version)
+            out += nested(it["cls"], tag, nv)
         else:
             v = it["value"]
             if "sym" in v:
